@@ -156,6 +156,14 @@ class C19(Prop):
             walk(f, lambda x: x.addTest(foreign) if isinstance(x, unittest.TestSuite) and id(x) not in mine else None)
             if self.shape(filter_by_ids(self.build(tree), idset)) != fshape:
                 return ['raised', 'filter-result-depends-on-earlier-calls']
+            # theorem C19_filter_twice on the implementation: filtering a filtered suite (placeholders included) is filtering once by
+            # the intersection, in either order, and the same filter again changes nothing
+            half = {tid(n) for n in ids if n % 2 == 0}
+            hshape = self.shape(filter_by_ids(self.build(tree), half))
+            if self.shape(filter_by_ids(filter_by_ids(self.build(tree), idset), idset)) != fshape \
+                    or self.shape(filter_by_ids(filter_by_ids(self.build(tree), idset), half)) != hshape \
+                    or self.shape(filter_by_ids(filter_by_ids(self.build(tree), half), idset)) != hshape:
+                return ['raised', 'filter-twice-differs-from-filtering-by-the-intersection']
             try:
                 src2 = self.build(tree)
                 before = {}
